@@ -42,9 +42,12 @@ class Obligation(object):
 
 
 class LoopSpec(object):
-    def __init__(self, invariant=None, heap_modifies=None, keep_locals=(), ghost=None, body_post=None, at_entry=None):
+    def __init__(self, invariant=None, heap_modifies=None, keep_locals=(), ghost=None, body_post=None, at_entry=None, local_types=None):
+        self.local_types = {}               # loop-assigned local name -> type of its value at the loop head
         self.body_post = body_post          # fn(engine, st, fr, ctx, events of this iteration) -> [(name, formula)]
         self.at_entry = at_entry            # fn(engine, st, fr, ctx) -> [(name, formula)] checked once at loop entry
+        if local_types:
+            self.local_types.update(local_types)
         self.invariant = invariant          # fn(engine, st, fr, ctx) -> list[(name, formula)]
         self.heap_modifies = heap_modifies  # None = everything; else list of heap array names
         self.keep_locals = keep_locals
@@ -74,7 +77,8 @@ class Config(object):
         self.ghost_hooks = {}
         self.py312 = True
         self.custom_types = {}
-        self.stable_cls = {}
+        self.field_alias = {}
+        self.local_types = {}
 
 
 def mangle(name, owner):
@@ -119,6 +123,17 @@ class Engine(object):
         for c in self.repo.classes[cls_name].mro:
             out |= self._inst_fields.get(c.name, set())
         return out
+
+    def heap_key(self, cls_name, field):
+        """Heap array name of an instance field: normally the field name; fields whose name clashes between
+        classes with different disciplines can be kept apart by an alias declared in the sidecar."""
+        al = getattr(self.cfg, "field_alias", None)
+        if al and cls_name is not None:
+            for c in self.repo.classes[cls_name].mro:
+                k = al.get((c.name, field))
+                if k is not None:
+                    return k
+        return field
 
     def field_type(self, cls_name, field):
         if cls_name is not None:
@@ -190,6 +205,11 @@ class Engine(object):
                 t = t2
         if assume and ty is not None:
             st.assume(self.ty_formula(st, t, ty))
+        if self.concrete_id(t) is None and ty not in ("bool", "int", "num", "none", "str"):
+            # freshness: a heap cell cannot refer to an object allocated after the cell's array version was
+            # created (pre-state arrays: nothing allocated during this execution at all)
+            bound = self.alloc_bound(st, t)
+            st.assume(z3.Implies(Val.is_ref(t), Val.id(t) <= FRESH_BASE + bound))
         if ty == "bool":
             return Z(Val.b(t), "bool")
         if ty == "int":
@@ -199,6 +219,52 @@ class Engine(object):
         if ty == "none":
             return None
         return Z(t, ty)
+
+    def alloc_bound(self, st, t, depth=0):
+        """Upper bound on how many objects can have been allocated when the value t was stored."""
+        cur = st.n_alloc
+        if depth > 40 or not z3.is_app(t):
+            return cur
+        cid = self.concrete_id(t)
+        if cid is not None:
+            return max(0, cid - FRESH_BASE)
+        k = t.decl().kind()
+        if k == z3.Z3_OP_SELECT:
+            arr, j = t.arg(0), t.arg(1)
+            best = 0
+            d = depth
+            while z3.is_app(arr) and arr.decl().kind() == z3.Z3_OP_STORE and d < 60:
+                d += 1
+                v = arr.arg(2)
+                vb = self.alloc_bound(st, v, depth + 1) if v.sort() == Val else self.array_bound(st, v, depth + 1)
+                if arr.arg(1).eq(j):
+                    return max(best, vb)          # this store certainly shadows everything below
+                best = max(best, vb)
+                arr = arr.arg(0)
+            return max(best, self.array_bound(st, arr, depth + 1))
+        if t.num_args() == 0 and t.sort() == Val:
+            return cur if t.decl().name() not in st.epochs else st.epochs[t.decl().name()]
+        if t.decl().eq(Val.none) or t.decl().eq(Val.boolv) or t.decl().eq(Val.intv) or t.decl().eq(Val.realv) or t.decl().eq(Val.strv):
+            return 0
+        return cur
+
+    def array_bound(self, st, a, depth=0):
+        cur = st.n_alloc
+        if depth > 40 or not z3.is_app(a):
+            return cur
+        k = a.decl().kind()
+        if k == z3.Z3_OP_STORE:
+            v = a.arg(2)
+            vb = self.alloc_bound(st, v, depth + 1) if v.sort() == Val else (self.array_bound(st, v, depth + 1) if z3.is_array(v) else 0)
+            return max(self.array_bound(st, a.arg(0), depth + 1), vb)
+        if k == z3.Z3_OP_SELECT:
+            return self.array_bound(st, a.arg(0), depth + 1)
+        if a.num_args() == 0:
+            nm = a.decl().name()
+            if nm.startswith("H0_"):
+                return 0
+            return st.epochs.get(nm, cur)
+        return cur
 
     def to_val(self, st, v):
         """Lift an engine value to a z3 Val term (allocating heap objects for tuples/closures/...)."""
@@ -296,11 +362,19 @@ class Engine(object):
     # =========================================================================================
     # solver
     # =========================================================================================
-    def check(self, st, extra=(), timeout=5000):
+    def check(self, st, extra=(), timeout=5000, qf=True):
+        """Satisfiability of the path condition (+extra).  For path pruning the quantified hypotheses are
+        dropped (qf=True): `unsat` is still sound, `sat` merely keeps a possibly infeasible path alive, whose
+        obligations are later discharged under the full hypotheses."""
         import time
+        from .verify import strip_quantified
         s = z3.Solver()
         s.set("timeout", timeout)
         for f in st.pc:
+            if qf:
+                f = strip_quantified(f)
+                if f is None:
+                    continue
             s.add(f)
         for f in extra:
             s.add(f)
@@ -377,6 +451,8 @@ class Engine(object):
             if s in ("int", "real"):
                 return v.t != 0
             r = self.truth_val(st, v.t, v.ty)
+            if isinstance(v.ty, tuple) and v.ty[0] in ("list", "deque", "set", "dict", "tuple"):
+                st.assume(st.get("$len", Val.id(v.t)) >= 0)        # a container's length is never negative
             if v.ty in (None, "any"):
                 # bool() of a user value is an observation at this instant (containers are mutable)
                 b = fresh("truthy", B)
@@ -526,6 +602,7 @@ class Engine(object):
             sort = SPECIAL.get(name, None)
             a = old[name]
             new = fresh("H_" + name.strip("$"), a.sort())
+            st.epochs[new.decl().name()] = st.n_alloc
             keep = [z3.IntVal(p) for p in sorted(st.private | st.frozen)]
             if name in cfg.protected or name in ("$len", "$at", "$mem", "$dval"):
                 for (owner, lf, kind) in held_ids:
@@ -538,11 +615,6 @@ class Engine(object):
                         for fname, lf2 in cfg.protected.items():
                             if lf2 == lf and fname in old and not fname.startswith("$"):
                                 keep.append(Val.id(z3.Select(old[fname], owner)))
-            sc = getattr(cfg, "stable_cls", {}).get(name)
-            if sc:
-                # field is immutable on objects of these classes (same field name is mutable elsewhere)
-                o = z3.Int("o!sc")
-                new = z3.Lambda([o], z3.If(z3.Or([cls_of(o) == self.tag(c) for c in sc]), z3.Select(a, o), z3.Select(new, o)))
             for k in keep:
                 new = z3.Store(new, k, z3.Select(a, k))
             st.heap[name] = new
@@ -684,6 +756,16 @@ class Engine(object):
         raise Unsupported("module-level name %s.%s" % (mi.name, name))
 
     def assign_name(self, st, fr, name, v):
+        lt = getattr(self.cfg, "local_types", None)
+        if lt and fr.func is not None and isinstance(v, Z) and v.sort == "val":
+            ty = lt.get((fr.func.qualname, name))
+            if ty is not None and v.ty != ty:
+                # declared type of a local (sidecar); the value must conform (container elements are then
+                # checked at every append against the declared element type)
+                if not (isinstance(ty, tuple) and ty[0] in ("list", "deque", "set") and isinstance(v.ty, tuple) and v.ty[0] == ty[0]
+                        and self.concrete_id(v.t) in st.private):
+                    self.oblige(st, fr, "declared type of local %s in %s" % (name, fr.func.qualname.split(".")[-1]), "TY", self.ty_formula(st, v.t, ty))
+                v = Z(v.t, ty)
         st.envs[fr.eid][name] = v
 
     # =========================================================================================
@@ -970,7 +1052,7 @@ class Engine(object):
             return
         if name in self.instance_fields(cname) or ci.namedtuple_fields and name in ci.namedtuple_fields:
             ty = self.field_type(cname, name)
-            yield st, self.typed(st, st.get(name, oid), ty)
+            yield st, self.typed(st, st.get(self.heap_key(cname, name), oid), ty)
             return
         if f is not None:
             if isinstance(f, Func):
@@ -1011,7 +1093,7 @@ class Engine(object):
             cid = self.concrete_id(o.t)
             if cid is None or cid not in st.private:
                 self.escape(st, t)
-            st.put(name, oid, t)
+            st.put(self.heap_key(cname, name), oid, t)
             st.trace.append(Event("write", recv=oid, meth=name, args=[t], site=self.site(fr, node), held=list(st.held), depth=fr.depth))
             hook = self.cfg.ghost_hooks.get(("write", name))
             if hook:
